@@ -312,6 +312,11 @@ def is_importable_type(typ: Any) -> bool:
     if is_type_alias_type(typ):
         module = sys.modules.get(typ.__module__)
         return getattr(module, typ.__name__, None) is typ
+    if is_new_type(typ) and PY_310_MIN:
+        new_type_obj: Any = sys.modules.get(typ.__module__)
+        for part in typ.__qualname__.split("."):
+            new_type_obj = getattr(new_type_obj, part, None)
+        return new_type_obj is typ
     for arg in get_args(typ):
         if not is_importable_type(arg):
             return False
